@@ -103,7 +103,7 @@ ENC_TAG_RUN = dict(
     quick=["-n", "4000"], thorough=["-n", "150000"], search=["-n", "30000"],
 )
 ENC_ASSUME = [
-    "the Lean models cover tag resolution for every tag string / override map, Process on pointers to flat structs (M7) and Process on nested value trees of structs, pointers, interface-held values, slices, slices of slices and untagged maps with addressability (M7t, tied by the enctree correspondence on run-time-built Go types) and Process on Taggable map payloads with pointer tags through nested maps and pointers to maps (M7g, enctag correspondence); pointer tags through slices / structs, Taggable values below the payload, IgnoreTypes and deeper exotic shapes are decided on the implementation by the canary oracle; wrapper-value (wrapperspb / structpb) fields are not exercised",
+    "the Lean models cover tag resolution for every tag string / override map, Process on pointers to flat structs (M7) and Process on nested value trees of structs, pointers, interface-held values, slices, slices of slices and untagged maps with addressability (M7t, tied by the enctree correspondence on run-time-built Go types) and Process on Taggable map payloads with pointer tags through nested maps and pointers to maps (M7g, enctag correspondence); pointer tags through slices / structs, Taggable values below the payload, IgnoreTypes and deeper exotic shapes and wrapper-value (wrapperspb) fields are decided on the implementation by the canary oracle (24 deep shape classes); structpb values are not exercised",
     "every produced value is canonicalised by independent code: AEAD Decrypt with each candidate key (go-kms-wrapping), HKDF (x/crypto) + HMAC-SHA256 recomputation",
     "copystructure / pointerstructure / reflect settability as observed through the correspondence",
 ]
